@@ -33,4 +33,19 @@ Qed.
 Theorem route_ignores_source conns d id c :
   route d = Some id -> lookup id conns = Some c ->
   forall src, get_conn conns src d = Some c.
-Proof. intros Hr Hl src. unfold get_conn. now rewrite Hr, Hl. Qed.
+Proof. intros Hr Hl src. unfold get_conn, get_conn_id. now rewrite Hr, Hl. Qed.
+
+(* LISTENER ROUTING: a record whose routed connection ID is registered for connection a is handed
+   to a whatever its source address - in particular when that address is the one tracked for
+   another live connection. *)
+Theorem owner_gets_record conns id a :
+  lookup id conns = Some a -> forall src, get_conn_id conns src (Some id) = Some a.
+Proof. intros Hl src. unfold get_conn_id. now rewrite Hl. Qed.
+
+(* the address-first order does not have this property: two connections, a record carrying the
+   ID of connection 1 from the address tracked for connection 2 is handed to connection 2 *)
+Example addr_first_misroutes :
+  let conns := [([1;1], 1); ([9;9;9], 1); ([2;2], 2); ([8;8;8], 2)] in
+  get_conn_id conns [8;8;8] (Some [1;1]) = Some 1 /\
+  get_conn_addr_first conns [8;8;8] (Some [1;1]) = Some 2.
+Proof. vm_compute. split; reflexivity. Qed.
